@@ -134,12 +134,41 @@ func solveAll(items []*solveItem, tmpDir string, timeoutS, workers int, waitAll 
 				file := filepath.Join(tmpDir, fmt.Sprintf("q%d_%d.smt2", w, it.idx))
 				q := it.vc.query(it.o)
 				it.o.Size = len(q)
-				r := runSolvers(q, file, timeoutS, waitAll)
+				tmo := timeoutS
+				if it.o.Vacuity && tmo > 8 {
+					tmo = 8 // reachability covers are expected sat quickly; an undecided cover is reported, not waited for
+				}
+				r := runSolvers(q, file, tmo, waitAll)
 				it.o.Result, it.o.Solver, it.o.TimeS = r.result, r.solver, r.secs
 				it.all = r.all
 				it.times = r.times
 				if r.result == "sat" || r.result == "error" || r.result == "unknown" {
 					it.o.Model = r.out
+				}
+				if r.result == "unknown" && len(it.o.Parts) > 1 {
+					// undecided conjunction over the returns: decide each return on its own
+					allUnsat := true
+					total := r.secs
+					for _, part := range it.o.Parts {
+						po := *it.o
+						po.Pc, po.Goal, po.Parts = part[0], part[1], nil
+						pr := runSolvers(it.vc.query(&po), file, timeoutS, false)
+						total += pr.secs
+						if os.Getenv("GOVC_DBG") != "" {
+							fmt.Fprintf(os.Stderr, "DBG part %s pc=%s -> %s %s %.1fs\n", it.o.Name, part[0], pr.result, pr.solver, pr.secs)
+							os.WriteFile(fmt.Sprintf("/tmp/part_%s.smt2", part[0]), []byte(it.vc.query(&po)), 0o644)
+						}
+						if pr.result != "unsat" {
+							allUnsat = false
+							it.o.Result, it.o.Solver, it.o.Model = pr.result, pr.solver, pr.out
+							break
+						}
+						it.o.Solver = pr.solver
+					}
+					it.o.TimeS = total
+					if allUnsat {
+						it.o.Result, it.o.Model, it.o.Split = "unsat", "", true
+					}
 				}
 				os.Remove(file)
 			}
